@@ -9,6 +9,7 @@ import VotelibDriver.C12
 import VotelibDriver.C08Seq
 import VotelibDriver.C16
 import VotelibModel.ShapeCompose
+import VotelibModel.ShapeAux
 open Lean
 namespace VL.Drv.C08
 open VL VL.Convert
@@ -38,6 +39,29 @@ def own (op : String) (j : Json) : Option (Except String Json) :=
     let p ← pApprovalL (← j.getObjVal? "votes")
     let n ← j.getObjValAs? Nat "n"
     pure (exceptJson slotsJson (Shape.approvalPlurality split p n))
+  | "sortitor" | "random_ballot" => some do
+    let votes ← getVotes j "votes"
+    let n ← j.getObjValAs? Nat "n"
+    let draws ← (← C13.pArr (← j.getObjVal? "draws")).mapM jsonRat
+    if votes.any (fun p => p.2.den ≠ 1) then throw "random selectors: integer counts only"
+    let r := if op = "sortitor" then ShapeAux.sortitor votes n draws else ShapeAux.randomBallot votes n draws
+    pure (exceptJson (fun l => toJson l) r)
+  | "rfc3797" => some do
+    let votes ← getVotes j "votes"
+    let n ← j.getObjValAs? Nat "n"
+    let draws ← j.getObjValAs? (List Nat) "draws"
+    pure (exceptJson (fun l => toJson l) (ShapeAux.rfc3797 votes n draws))
+  | "candidate_number" => some do
+    let votes ← getVotes j "votes"
+    let n ← j.getObjValAs? Nat "n"
+    -- numbers: [[candidate id, candidacy number | null], ...]
+    let nums ← (← C13.pArr (← j.getObjVal? "numbers")).mapM (fun e => do
+      match (← C13.pArr e) with
+      | [c, Json.null] => do pure ((← C13.pNat c), (none : Option Int))
+      | [c, v] => do pure ((← C13.pNat c), some (← fromJson? (α := Int) v))
+      | _ => throw "numbers: pair expected")
+    let num : Cand → Option Int := fun c => match nums.find? (fun e => e.1 == c) with | some e => e.2 | none => none
+    pure (exceptJson (fun l => toJson l) (ShapeAux.candidateNumberRanker num votes n))
   | "input_order" => some do
     let votes ← getVotes j "votes"
     let n ← j.getObjValAs? Nat "n"
